@@ -1475,6 +1475,17 @@ func (interp *Interpreter) cfg(root *node, sc *scope, importPath, pkgName string
 
 				n.action = aConvert
 				switch {
+				case isInterface(c0.typ) && !isInterface(c1.typ) && !c1.typ.untyped && !c1.rval.IsValid() && !c1.isNil():
+					// Convert a concrete value to an interface type: the result is a new interface value,
+					// as in an assignment to a variable of that type (it holds the dynamic type for later
+					// assertions and type switches, and a copy of the value).
+					if !c1.typ.implements(c0.typ) {
+						err = n.cfgErrorf("type %v does not implement interface %v", c1.typ.id(), c0.typ.id())
+						break
+					}
+					n.gen = convertToInterface
+					n.typ = c0.typ
+					n.findex = sc.add(n.typ)
 				case isInterface(c0.typ) && !c1.isNil():
 					// Convert to interface: just check that all required methods are defined by concrete type.
 					if !c1.typ.implements(c0.typ) {
